@@ -118,7 +118,8 @@ def run(rep, pdb, tier):
                 if a.get("k") == "If":
                     for at in cond_atoms(ctx, a["cond"], True) + cond_atoms(ctx, a["cond"], False):
                         if at[0] in ("cmp", "ncmp") and at[1] in ("<", "<=", ">", ">="):
-                            lits = [t for t in (at[2], at[3]) if t[0] == "num" and t[1] != 0]
+                            lits = [t for t in (at[2], at[3]) if t[0] == "num"]
+                            # an absolute threshold - or a SIGN test (`!(v > 0.0)`): the inner products of the nonsymmetric recurrences are legitimately negative
                             if lits:
                                 bad.append((n, show(at[2], ctx), at[1], show(at[3], ctx)))
         rep.add("breakdown-exact/%s" % name, rule, not bad, bad[0][0] if bad else fn["body"],
@@ -134,6 +135,28 @@ def run(rep, pdb, tier):
             rep.add("transpose-product/%s" % name, "the loop applies A^T (transpose_multiply) exactly once per iteration, unconditionally: replacing it by the A-product or a copy under a run-time "
                     "`symmetric` test makes the method depend on that test", len(tms) == 1 and not cond_, tms[0] if tms else sv.main,
                     "transpose products in the loop: %d, under a condition: %d" % (len(tms), len(cond_)))
+        # ---- the convergence test is made in every iteration
+        from .c08 import _is_ok as _isok
+        cond_tests = []
+        for n in walk(sv.main["body"]):
+            if n.get("k") == "Ret" and _isok(n):
+                chain = [a for a in ancestors(n)]
+                ifs = []
+                for a in chain:
+                    if a is sv.main:
+                        break
+                    if a.get("k") == "If":
+                        ifs.append(a)
+                # the outermost enclosing `if` must be the tolerance test itself (or carry it): anything else makes the test conditional
+                if ifs:
+                    outer = ifs[-1]
+                    ats = cond_atoms(ctx, outer["cond"], True)
+                    has_tol = any(a_[0] == "cmp" and a_[1] in ("<=", "<") and a_[3] == TOL for a_ in ats)
+                    if not has_tol:
+                        cond_tests.append(n)
+        rep.add("tested-every-iteration/%s" % name, "the tolerance test that guards a success exit is not nested under another condition of the loop body (`if i % 2 == 0 { test }`): a recurrence that "
+                "reaches an exactly zero residual on a skipped step is iterated once more and divides 0 by 0", not cond_tests, cond_tests[0] if cond_tests else sv.main,
+                "success exits whose tolerance test is conditional: %d" % len(cond_tests))
         # ---- a converged recurrence is never iterated further
         rule_not_continued(rep, sv, name)
         # ---- loop-carried state is refreshed on every iteration
@@ -145,6 +168,7 @@ def run(rep, pdb, tier):
     rep.floor("iteration-map/", 4)
     rep.floor("failure-exits/", 4)
     rep.floor("breakdown-exact/", 4)
+    rep.floor("tested-every-iteration/", 4)
     rep.floor("breakdown-free/", 4)
     rep.floor("carried/", 4)
     rep.floor("transpose-product/", 2)
